@@ -254,7 +254,8 @@ def gen_cases(rng, tier, n_classes, lossy=0.2):
                 d = dedupe_doc(d)
                 cases.append({"suite": "serde", "mode": "deser", "stream": tag, "cls": cls, "doc": d,
                               "opts": rng.choice(opts_list), "re": gen.re_table(cls, d)})
-            for d in nested_extra_docs(doc):
+            for d in nested_extra_docs(dedupe_doc(doc)):
+                d = dedupe_doc(d)
                 for o in ({"keepUndefined": True, "ignoreInvalidAddl": False}, {"keepUndefined": True, "ignoreInvalidAddl": True},
                           {"keepUndefined": False, "ignoreInvalidAddl": False}):
                     cases.append({"suite": "serde", "mode": "deser", "stream": "nested-extra", "cls": cls, "doc": d,
